@@ -70,7 +70,8 @@ impl BytesSerializable for LoginWithPersonalAccessToken {
 
 impl Display for LoginWithPersonalAccessToken {
     fn fmt(&self, f: &mut Formatter<'_>) -> std::fmt::Result {
-        write!(f, "{}", self.token)
+        // The raw token is a secret: the server logs every received command through this impl.
+        write!(f, "******")
     }
 }
 
